@@ -41,6 +41,13 @@ def universe(base):
         "in7": b + (16383,),
         "in8": b + (16384, 0),
         "in9": b + (2 ** 32 - 1,),
+        # arcs whose encodings share a leading octet but differ in length (255 = 81 7f, 16384 = 81 80 00; 129 = 81 01)
+        "in10": b + (129,),
+        "in11": b + (255,),
+        "in12": b + (256,),
+        "in13": b + (16384,),
+        "in14": b + (16385, 1),
+        "in15": b + (2 ** 21,),
         "look1": b[:-1] + (last + 128,) if last + 128 < 2 ** 32 else b[:-1] + (last + 1,),
         "look2": b[:-1] + (last * 128 + 1,) if 0 < last * 128 + 1 < 2 ** 32 else b[:-1] + (last + 2,),
         "above": b[:-1] + (last + 1,),
@@ -49,7 +56,9 @@ def universe(base):
     return u
 
 
-UKEYS = ["below", "parent", "base", "in1", "in2", "in3", "in4", "in5", "in6", "in7", "in8", "in9", "look1", "look2", "above", "above2"]
+UKEYS = ["below", "parent", "base", "in1", "in2", "in3", "in4", "in5", "in6", "in7", "in8", "in9", "in10", "in11", "in12", "in13", "in14",
+         "in15", "look1", "look2", "above", "above2"]
+INCREASING = ["in1", "in2", "in3", "in4", "in5", "in6", "in10", "in11", "in12", "in7", "in13", "in8", "in14", "in15", "in9"]
 TAILS = ["eom", "empty", "repeat", "cycle"]
 
 
@@ -62,15 +71,16 @@ def build_case(u):
     nrep = u.below(9)
     script = []
     bias_inc = u.bool(2, 3)  # mostly increasing in-subtree prefixes so that the interesting event comes late
-    inside = ["in1", "in2", "in3", "in4", "in5", "in6", "in7", "in8", "in9"]
-    pos = 0
+    inside = INCREASING
+    pos = u.below(8) if u.bool() else 0
     for _ in range(nrep):
         nvb = (1 if u.below(8) else u.below(4)) if method == "getnext" else u.below(7)
         rep_ = []
         for _ in range(nvb):
             if bias_inc and u.below(4) and pos < len(inside):
                 k = inside[pos]
-                pos += 1 if u.below(6) else 0
+                # a random increasing subsequence (neighbours of very different encoded width end up adjacent)
+                pos += (1 + (u.below(4) if u.below(3) == 0 else 0)) if u.below(6) else 0
             else:
                 k = u.choice(UKEYS)
             v = u.choice(DATA) if u.below(4) else u.choice(list(VALS))
